@@ -48,6 +48,7 @@ func runC01(r *Report, tier string) {
 	r.rule("R01.3", "wire slots are the message fields: encoder slots Payload/Signature are the receiver's fields and the bucket slots the bucket marshalers' results; decoder fields come from the same-named slots of the decoded wire struct; slot types are RawMessage for buckets and the bstr/nil type for payload and signature (nil <-> f6, detached payloads survive).")
 	r.rule("R07.3", "no narrowing of the decoder: MaxNestedLevels, MaxArrayElements, MaxMapPairs of every decode mode are unset (library defaults), so everything the encoder emits within those defaults can be decoded again.")
 	r.rule("R04.2", "both algorithm gates succeed only when (a) alg equals, (b) alg absent and len(external) > 0, (c) sign side: alg inserted - the same predicate on both sides, so a message signed without alg is verifiable with the same external data.")
+	r.rule("R01.5", "builder purity: the functions that compute ToBeSigned (and their call trees) write no memory that existed before the call, so computing it again - on verify after sign, on a second verify, for a countersignature over the same parent - reads the same bytes.")
 	r.rule("R01.4", "builder determinism: the ToBeSigned terms contain no call outside the CBOR modes and in-package helpers, and read no package state other than the modes.")
 	r.assumes("the crypto primitives accept their own signatures; the CBOR library round-trips byte strings (A2/A4); a key built from a COSE_Key is the matching key (C14's structural part)")
 
@@ -110,6 +111,32 @@ func runC01(r *Report, tier string) {
 		})
 		o4.check(bad == "", "only CBOR modes and in-package helpers", "the signed bytes depend on "+bad)
 	}
+	// R01.5: computing ToBeSigned leaves the object as it was: the builder's
+	// call tree writes no memory that existed before the call (a second
+	// computation - verify after sign, verify twice, countersign then verify -
+	// must see the same bytes)
+	{
+		seenB := map[*ssa.Function]bool{}
+		nb := 0
+		for _, st := range sites {
+			raw := P.terms.of(st.content)
+			if !(raw.Op == "res" && len(raw.Args) == 1 && raw.Args[0].Op == "call") {
+				continue
+			}
+			bf := P.calleeOfTerm(raw.Args[0])
+			if bf == nil || seenB[bf] {
+				continue
+			}
+			seenB[bf] = true
+			nb++
+			var ws []string
+			for _, w := range P.effects.summary(bf).writes {
+				ws = append(ws, w.loc().String()+" at "+P.instrPos(w.instr))
+			}
+			r.ob("R01.5", shortFn(bf)+":observer", bf, nil, "the ToBeSigned builder and everything it calls write nothing that existed before the call").check(len(ws) == 0, "no writes to pre-existing memory", "the builder writes "+strings.Join(ws, "; "))
+		}
+		r.floor("R01.5", nb, 3, "ToBeSigned builders")
+	}
 	// delegation of untagged / COSE_Sign is R02.1's; here: SignMessage elements use the Signature methods (R11.4)
 	checkNoWriteAfterBuilder(r, "R01.2")
 	// protected operand of the sign term == encoder protected slot: both are PROT($0.Headers)
@@ -166,6 +193,8 @@ func mutC01() []mutant {
 			Old: "\treturn verifier.Verify(toBeSigned, s.Signature)\n}\n\n// toBeSigned returns ToBeSigned from COSE_Countersignature object.", New: "\treturn verifier.Verify(toBeSigned, s.Headers.RawProtected)\n}\n\n// toBeSigned returns ToBeSigned from COSE_Countersignature object."},
 		{Name: "ToBeSigned depends on a package-level counter", File: "sign.go", Rule: "R01.4",
 			Old: "\tif external == nil {\n\t\texternal = []byte{}\n\t}\n\tsigStructure := []any{\n\t\t\"Signature\",   // context", New: "\tif external == nil {\n\t\texternal = []byte{}\n\t}\n\tsignaturePrefix[0]++\n\texternal = append(external[:len(external):len(external)], signaturePrefix[0])\n\tsigStructure := []any{\n\t\t\"Signature\",   // context"},
+		{Name: "head normaliser rewrites its argument in place", File: "cbor.go", Rule: "R01.5",
+			Old: "\tvar s []byte\n\t_ = decModeWithTagsForbidden.Unmarshal(data, &s)\n\treturn encMode.Marshal(s)", New: "\tvar s []byte\n\t_ = decModeWithTagsForbidden.Unmarshal(data, &s)\n\tout, err := encMode.Marshal(s)\n\tif err == nil {\n\t\tcopy(data, out)\n\t}\n\treturn out, err"},
 		{Name: "payload slot type loses nil", File: "sign1.go", Rule: "R01.3",
 			Old: "\tPayload     byteString\n\tSignature   byteString\n}\n\n// sign1MessagePrefix", New: "\tPayload     []byte\n\tSignature   byteString\n}\n\n// sign1MessagePrefix"},
 	}
